@@ -961,6 +961,8 @@ var scriptShapes = [][]byte{
 	[]byte("#!/bin/sh\nif true; then { echo brace; }; fi\n}\n"),
 	[]byte("#!/bin/sh\nprintf '%s %d 100%%\\n' x 1\n"),
 	[]byte("#!/bin/sh\necho \xc3\xa9\xe2\x9c\x93 \xff\xfe\n"),
+	[]byte("\xef\xbb\xbf#!/bin/sh\necho starts with a byte order mark\n"),
+	[]byte("#!/bin/sh\n\x01binary\x7f tail\r"), // (no NUL byte: an rpm scriptlet is a C string)
 	[]byte(""),
 	[]byte("\n"),
 }
